@@ -224,3 +224,18 @@ pub fn closed(p: &ProgramDef, rng: &mut Rng) -> Input {
    let rows = finish(rng, lat, rows);
    with_other_inputs(p, rng, e, rows)
 }
+
+/// one large input relation (hundreds of rows, not a multiple of any small pool size): block-wise
+/// or chunked processing of relation vectors only shows its seams at such sizes
+pub fn big(p: &ProgramDef, rng: &mut Rng) -> Input {
+   let mut res = small(p, rng);
+   let target = p.rels.iter().position(|r| r.input && r.name == "bulk").expect("generator big needs an input relation named bulk");
+   let n = *rng.pick(&[257u64, 263, 301, 389, 515, 641]) + rng.below(3);
+   let rows: Vec<Row> = (0..n).map(|i| vec![Val::I(i as i64), Val::I(((i * 7 + 3) % 11) as i64)]).collect();
+   let mut rows = rows;
+   rng.shuffle(&mut rows);
+   res.retain(|(i, _)| *i != target);
+   res.push((target, rows));
+   res.sort_by_key(|(i, _)| *i);
+   res
+}
